@@ -1138,6 +1138,8 @@ func genSizes(c *ctx, emit func(string)) {
 			emit(fmt.Sprintf("#bigmid %x", sz))
 		}
 	}
+	// many reads of zero-length and tiny entries through the pooled read buffer (implementation only)
+	emit("#zeroreads 3000")
 	// WAL level (every tier, ~7 s): payloads whose ENCODING crosses the limit, and a batch
 	// above 64 MiB that must survive a reopen of the unsealed tail
 	for _, k := range []string{"exact", "data-8", "data", "ext", "batch"} {
@@ -1247,10 +1249,66 @@ func execSizes(c *ctx, line string) string {
 	if strings.HasPrefix(line, "#walbig") {
 		return execWalBig(c, line)
 	}
+	if strings.HasPrefix(line, "#zeroreads") {
+		return execZeroReads(c, line)
+	}
 	if strings.HasPrefix(line, "#big") {
 		return execBig(c, line)
 	}
 	return execSeg(c, line)
+}
+
+// execZeroReads: entries of length 0, 1 and 7 next to each other, read thousands of times
+// through the tail reader and, after sealing, the sealed reader: the pooled read buffer must
+// not degrade with use (C15: every size is read back identically, however often).
+func execZeroReads(c *ctx, line string) (obs string) {
+	defer func() {
+		if e := recover(); e != nil {
+			obs = "panic"
+			c.witness("C15", "read-panic", fmt.Sprintf("reading small entries panics: %v", e), line)
+		}
+	}()
+	n := int(parseU(strings.Split(line, " ")[1]))
+	info := types.SegmentInfo{ID: 1, BaseIndex: 1, MinIndex: 1, Codec: 1, SizeLimit: 4096}
+	vfs := newMemFS()
+	filer := segment.NewFiler("d", vfs)
+	sw, err := filer.Create(info)
+	if err != nil {
+		return "badinput"
+	}
+	es := []types.LogEntry{{Index: 1, Data: []byte{}}, {Index: 2, Data: []byte{7}}, {Index: 3, Data: []byte{}}, {Index: 4, Data: []byte("1234567")}, {Index: 5, Data: nil}}
+	if err := sw.Append(es); err != nil {
+		c.witness("C15", "max-refused", fmt.Sprintf("batch with zero-length entries refused: %v", err), line)
+		return "fail"
+	}
+	read := func(rd types.SegmentReader, what string) bool {
+		for k := 0; k < n; k++ {
+			for _, e := range es {
+				pb, gerr := rd.GetLog(e.Index)
+				if gerr != nil || !bytes.Equal(pb.Bs, e.Data) {
+					c.witness("C15", "acked-unreadable", fmt.Sprintf("entry %d (%d bytes) unreadable at read %d through the %s: %v", e.Index, len(e.Data), k*len(es), what, gerr), line)
+					return false
+				}
+				pb.Close()
+			}
+		}
+		return true
+	}
+	if !read(sw, "tail reader") {
+		return "fail"
+	}
+	if _, err := sw.ForceSeal(); err != nil {
+		return "fail"
+	}
+	_, is, _ := sw.Sealed()
+	info2 := info
+	info2.IndexStart, info2.MaxIndex = is, 5
+	r, err := filer.Open(info2)
+	if err != nil || !read(r, "sealed reader") {
+		return "fail"
+	}
+	c.stat("zero_reads")
+	return "ok"
 }
 
 // execBig: one entry of the given size (alone, or in the middle of a batch) on
